@@ -426,6 +426,29 @@ pub fn c10_case(fam: &str, idx: usize, seed: u64) -> Option<Case> {
             let n0 = first_pass_len(size, 32);
             let at = rng.usize(n0 + 1);
             let trig = if rng.bool() { Trigger::AfterEmit(0, at) } else { Trigger::AfterArrive(1, at.min(n0 - 1)) };
+            if idx % 4 == 1 {
+                // a cancel late in the life of a transaction: it was suspended early for longer than limit x ACK
+                // timeout, is resumed, and cancelled right away; the first PDU of the cancel handshake is lost.
+                // The handshake timers start when the cancel is issued, not when the transaction was created.
+                let early = Trigger::AfterEmit(0, rng.usize(2));
+                let pause = (k.limit as u64 + 1) * k.ta as u64 * 1000 + rng.below(3000);
+                sc.scripts.push(Script { trig: early.clone(), delay_ms: pause + 2, act: Act::Prim(who, PrimKind::Cancel, 0) });
+                sc.scripts.push(Script { trig: early.clone(), delay_ms: 0, act: Act::Prim(who, PrimKind::Suspend, 0) });
+                sc.scripts.push(Script { trig: early, delay_ms: pause, act: Act::Prim(who, PrimKind::Resume, 0) });
+                if who == 0 {
+                    sc.rules.push(Rule { from: 0, to: 1, m: Matcher::KindNth(Kind::Eof, 0), a: Action::Drop });
+                } else {
+                    sc.rules.push(Rule { from: 1, to: 0, m: Matcher::KindNth(Kind::Finished, 0), a: Action::Drop });
+                }
+                // the peer must outlast the suspension
+                let mut kp = k.clone();
+                kp.limit = 40;
+                sc.entities[1 - who].config = kp.config();
+                let desc = format!("{} size={} e{} suspended at {:?} for {} ms, resumed, cancelled 2 ms later; first handshake PDU lost [{}]", k.describe(), size, who, sc.scripts[1].trig, pause, rules_desc(&sc.rules));
+                let mut cs = Case::from(sc, &k, desc, true);
+                cs.info.knobs[1 - who] = kp;
+                return Some(cs);
+            }
             if idx % 4 == 3 {
                 // the other order: cancel first, the peer is never heard again, and the user then suspends and
                 // resumes the already cancelled transaction: the cancel handshake must still run into its limit
@@ -1013,6 +1036,60 @@ pub fn c17_case(fam: &str, idx: usize, seed: u64) -> Option<Case> {
             let desc = format!("{} size={} ({} segments) {:?} after emission #{}, reverse link dark", k.describe(), size, nseg, what, at);
             Some(Case::from(sc, &k, desc, false))
         }
+        "keepalive" => {
+            // a live but slow peer: after acknowledging the EOF it sends nothing but Keep Alive PDUs, closer
+            // together than the inactivity timeout, for longer than the inactivity limit, then Finished.
+            // Every PDU heard restarts the inactivity watch: no inactivity fault may be declared.
+            let mut rng = Rng::derive(seed, 1704, idx as u64);
+            let mut k = Knobs::base();
+            k.seg = 32;
+            let t = *rng.pick(&[(1i64, 2i64, 2i64, 2u32), (2, 3, 1, 2), (3, 1, 5, 3), (4, 5, 5, 1)]);
+            k.ti = t.0;
+            k.ta = t.1;
+            k.tn = t.2;
+            k.limit = t.3;
+            if rng.bool() {
+                let a = rng.pick(&[FaultHandlerAction::Abandon, FaultHandlerAction::Cancel]).clone();
+                k.handlers = vec![(Condition::InactivityDetected, a)];
+            }
+            let size = 32 * (1 + rng.usize(4));
+            let cont = content(&mut rng, size, 0, 32, 0xC17);
+            let mut sc = two_party(&case, rng.next_u64(), &k, cont);
+            sc.entities[1].scripted = true;
+            let gap = (t.0 as u64 * 1000) * (5 + rng.below(4)) / 10;
+            let n = ((t.0 as u64 * 1000 * t.3 as u64 + 2500) / gap + 1) as u32;
+            let mut peer = crate::p_peer::ScriptedReceiver::new(1, vec![], true, gap.min(400));
+            peer.keepalives = Some((gap, n));
+            sc.peers.push((1, Box::new(peer)));
+            sc.paced = true;
+            sc.observe_ms = gap * n as u64 + 3 * bound_ms(&k.config(), 2000);
+            let desc = format!("{} size={} scripted receiver: ACK(EOF), then {} Keep Alive PDUs {} ms apart, then Finished", k.describe(), size, n, gap);
+            Some(Case::from(sc, &k, desc, false))
+        }
+        "suspend" => {
+            // the sender waits for the ACK of its EOF from a peer that is never heard; the user suspends it and
+            // resumes it half / one and a half / several ACK timeouts later: suspended time does not count
+            let mut rng = Rng::derive(seed, 1705, idx as u64);
+            let mut k = Knobs::base();
+            k.seg = 32;
+            let t = *rng.pick(&[(30i64, 2i64, 2i64, 2u32), (30, 1, 5, 3), (40, 3, 4, 3), (40, 2, 2, 4)]);
+            k.ti = t.0;
+            k.ta = t.1;
+            k.tn = t.2;
+            k.limit = t.3;
+            let size = 32 * (1 + rng.usize(4));
+            let cont = content(&mut rng, size, 0, 32, 0xC17);
+            let mut sc = two_party(&case, rng.next_u64(), &k, cont);
+            sc.rules.push(Rule { from: 1, to: 0, m: Matcher::FromIdx(0), a: Action::Drop });
+            let ta = t.1 as u64 * 1000;
+            let at = *rng.pick(&[ta / 4, ta / 2, ta + ta / 3]);
+            let len = *rng.pick(&[ta / 2, ta + ta / 2, 2 * ta + ta / 2, (t.3 as u64 + 1) * ta]);
+            sc.scripts.push(Script { trig: Trigger::AfterInd(0, IndKind::EoFSent, 0), delay_ms: at, act: Act::Prim(0, PrimKind::Suspend, 0) });
+            sc.scripts.push(Script { trig: Trigger::AfterInd(0, IndKind::EoFSent, 0), delay_ms: at + len, act: Act::Prim(0, PrimKind::Resume, 0) });
+            sc.paced = true;
+            let desc = format!("{} size={} reverse link dark; sender suspended {} ms after EOF for {} ms", k.describe(), size, at, len);
+            Some(Case::from(sc, &k, desc, false))
+        }
         "mixed" => {
             // a different handler for every condition: the action taken must be the one configured for the
             // condition that was actually declared, also for the second and third fault of a transaction
@@ -1078,6 +1155,64 @@ fn unanswered_before(xs: &[u64], answers: &[u64], tf: u64) -> Vec<u64> {
     // strictly before the fault: a transmission at the very instant of the fault is the handler's doing
     let last_ans = answers.iter().filter(|a| **a < tf).max().cloned();
     xs.iter().filter(|x| **x + 5_000 < tf && last_ans.map(|a| **x > a).unwrap_or(true)).cloned().collect()
+}
+
+/// suspend family: the time a sender spends suspended counts neither towards the next EOF retransmission nor
+/// towards the limit
+pub fn judge_c17b_suspend(info: &Info, log: &RunLog, rep: &mut Report) {
+    let d = Dig::new(log);
+    count_observed(rep, log);
+    let id = match d.id(0) {
+        Some(i) => i,
+        None => return,
+    };
+    let k = &info.knobs[0];
+    let ta = k.ta as u64 * 1_000_000;
+    let w = |head: &str| witness(log, info, head);
+    let resume = d.prims(0, 0).into_iter().find(|p| p.2 == PrimKind::Resume && p.3).map(|p| p.1);
+    let sus = d.inds(0, id, IndKind::Suspended).first().map(|x| x.1);
+    let (s_t, r_t) = match (sus, resume) {
+        (Some(s), Some(r)) if r > s => (s, r),
+        _ => return,
+    };
+    let eofs: Vec<u64> = d.emits(0, id).into_iter().filter(|e| matches!(&e.4.payload, PDUPayload::Directive(Operations::EoF(x)) if x.condition == Condition::NoError)).map(|e| e.1).collect();
+    let fault = d.faults(0, id).into_iter().find(|f| f.2.condition == Condition::PositiveLimitReached).map(|f| f.1);
+    rep.count("c17_suspend_runs_judged");
+    let cfg = format!("cfg={} L={}", k.shape(), k.limit);
+    // (a) the first retransmission after the resume waits a full ACK timeout
+    if let Some(first_after) = eofs.iter().find(|t| **t > r_t) {
+        if *first_after + 10_000 < r_t + ta {
+            rep.violate("suspended-time-counted", format!("{} what=early-retransmission", cfg), &info.case, w(&format!("resumed at {:.3}s, EOF retransmitted at {:.3}s: less than one ACK timeout ({} s) after the resume", r_t as f64 / 1e6, *first_after as f64 / 1e6, k.ta)));
+        }
+    }
+    // (b) the EOF gets its L transmissions, and the limit is not declared before L timeouts of unsuspended waiting
+    if let Some(tf) = fault {
+        let n = eofs.iter().filter(|t| **t < tf).count();
+        if n != k.limit as usize {
+            rep.violate("suspended-time-counted", format!("{} what=transmissions-{}", cfg, if n < k.limit as usize { "fewer" } else { "more" }), &info.case, w(&format!("PositiveLimitReached after {} EOF transmissions; the limit is {}", n, k.limit)));
+        }
+        let first = eofs.first().cloned().unwrap_or(0);
+        let waited = (tf - first).saturating_sub(r_t.min(tf).saturating_sub(s_t.min(tf)));
+        if waited + 20_000 < k.limit as u64 * ta {
+            rep.violate("suspended-time-counted", format!("{} what=fault-early", cfg), &info.case, w(&format!("PositiveLimitReached after {:.3}s of unsuspended waiting; {} x {} s are due", waited as f64 / 1e6, k.limit, k.ta)));
+        }
+        rep.count("c17_suspend_limit_faults_judged");
+    }
+    rep.nontrivial(case_sig(info, log));
+}
+
+/// keepalive family: the peer is heard more often than once per inactivity timeout, so the sender never declares
+/// inactivity (on top of the general timing rules)
+pub fn judge_c17b_keepalive(info: &Info, log: &RunLog, rep: &mut Report) {
+    judge_c17b(info, log, rep);
+    let d = Dig::new(log);
+    if let Some(id) = d.id(0) {
+        rep.count("c17_keepalive_runs_judged");
+        if let Some(f) = d.faults(0, id).iter().find(|f| f.2.condition == Condition::InactivityDetected) {
+            let last = d.arrivals(0, id).iter().filter(|a| a.1 <= f.1).map(|a| (a.1, a.2)).last();
+            rep.violate("inactivity-declared-while-peer-is-heard", format!("cfg={} last-heard={}", info.knobs[0].shape(), last.map(|l| kind_short(l.1)).unwrap_or("-")), &info.case, witness(log, info, &format!("the sender declared InactivityDetected at {:.3}s although it had heard its peer at {:.3}s (inactivity timeout {} s x limit {})", f.1 as f64 / 1e6, last.map(|l| l.0).unwrap_or(0) as f64 / 1e6, info.knobs[0].ti, info.knobs[0].limit)));
+        }
+    }
 }
 
 pub fn judge_c17b(info: &Info, log: &RunLog, rep: &mut Report) {
@@ -1375,7 +1510,8 @@ pub fn judge_c17b(info: &Info, log: &RunLog, rep: &mut Report) {
 pub fn run_c17b(rep_out: &mut Report, tier: &str, seed: u64, replay: Option<&str>) {
     if let Some(r) = replay {
         let (_, fam, idx, sd) = parse_case(r);
-        rep_out.merge(run_single(c17_case(&fam, idx, sd).expect("case"), judge_c17b));
+        let j: fn(&Info, &RunLog, &mut Report) = if fam == "keepalive" { judge_c17b_keepalive } else if fam == "suspend" { judge_c17b_suspend } else { judge_c17b };
+        rep_out.merge(run_single(c17_case(&fam, idx, sd).expect("case"), j));
         return;
     }
     let n = c17_space().len();
@@ -1389,6 +1525,12 @@ pub fn run_c17b(rep_out: &mut Report, tier: &str, seed: u64, replay: Option<&str
     let nm = if tier == "thorough" { 600_000 } else { 1_500 };
     rep_out.merge(run_cases(nm, "c17b-mixed", move |i| c17_case("mixed", i, seed), judge_c17b));
     rep_out.add("cases:mixed", nm as u64);
+    let nk = if tier == "thorough" { 20_000 } else { 300 };
+    rep_out.merge(run_cases(nk, "c17b-keepalive", move |i| c17_case("keepalive", i, seed), judge_c17b_keepalive));
+    rep_out.add("cases:keepalive", nk as u64);
+    let nsu = if tier == "thorough" { 30_000 } else { 400 };
+    rep_out.merge(run_cases(nsu, "c17b-suspend", move |i| c17_case("suspend", i, seed), judge_c17b_suspend));
+    rep_out.add("cases:suspend", nsu as u64);
     let np = if tier == "thorough" { 3_000 } else { 60 };
     rep_out.merge(run_cases(np, "c17b-prompt", move |i| c17_case("prompt", i, seed), judge_c17b));
     rep_out.add("cases:prompt", np as u64);
@@ -1398,10 +1540,10 @@ pub fn meta_c17b() -> Meta {
     Meta {
         property: "C17",
         level: "exploration",
-        rule: "protocol level: 4-segment file, timer grid (Ti,Ta,Tn,L) in {(10,3,4,3),(4,1,2,2),(20,5,2,5),(6,2,9,1),(3,1,5,3),(1,2,2,2),(2,3,1,2)} x handler for every timer/checksum condition in {unset, Cancel, Ignore, Suspend, Abandon} x 4 NAK procedures x scenarios {reverse link dark from each of its first 4 PDUs, forward link dark from each of its first 7 PDUs, each data segment lost together with all its retransmissions, one segment recovering while its neighbour never does (progress resets the count), a corrupted byte without CRC, every Finished lost} plus unacknowledged+closure variants (complete in thorough, every 3rd by seed in quick); mixed = seeded scenarios of the same kinds with a different handler per condition (NAK limit often ignored, so that a second, different fault follows in the same transaction); prompt = a Prompt issued early in a data phase of 1.3-2.6 ACK timeouts (thousands of segments), then a peer that is never heard. Oracle on virtual timestamps; a receiver inactivity limit that was reached must also have been declared under its own condition. distinct_nontrivial = distinct (config, event-order) signatures among runs in which at least one limit fault was timed.".into(),
+        rule: "protocol level: 4-segment file, timer grid (Ti,Ta,Tn,L) in {(10,3,4,3),(4,1,2,2),(20,5,2,5),(6,2,9,1),(3,1,5,3),(1,2,2,2),(2,3,1,2)} x handler for every timer/checksum condition in {unset, Cancel, Ignore, Suspend, Abandon} x 4 NAK procedures x scenarios {reverse link dark from each of its first 4 PDUs, forward link dark from each of its first 7 PDUs, each data segment lost together with all its retransmissions, one segment recovering while its neighbour never does (progress resets the count), a corrupted byte without CRC, every Finished lost} plus unacknowledged+closure variants (complete in thorough, every 3rd by seed in quick); mixed = seeded scenarios of the same kinds with a different handler per condition (NAK limit often ignored, so that a second, different fault follows in the same transaction); prompt = a Prompt issued early in a data phase of 1.3-2.6 ACK timeouts (thousands of segments), then a peer that is never heard; keepalive = a scripted receiver that acknowledges the EOF and then sends only Keep Alive PDUs, closer together than the inactivity timeout, for longer than the inactivity limit, then Finished; suspend = the sender waits for the ACK of its EOF from a silent peer and is suspended for 0.5 .. L+1 ACK timeouts (suspended time counts neither towards the next retransmission nor towards the limit). Oracle on virtual timestamps; a receiver inactivity limit that was reached must also have been declared under its own condition. distinct_nontrivial = distinct (config, event-order) signatures among runs in which at least one limit fault was timed.".into(),
         exhaustive: false,
         assumptions: vec!["never-earlier is checked with 10 ms slack for the 1 ms/PDU pacing of the simulated link; never-later with an additional 50 ms per period".into(), "with an Ignore handler the implementation re-declares the same fault at every further expiry; only the first declaration of each condition is judged".into()],
-        require: vec![("c17_timing_judged:sender:EOF".into(), 30), ("c17_timing_judged:receiver:Finished".into(), 30), ("c17_timing_judged:receiver:NAK".into(), 30), ("c17_timing_judged:receiver:Inactivity".into(), 30), ("c17_handler_judged:Abandon".into(), 20), ("c17_handler_judged:Suspend".into(), 20), ("c17_handler_judged:Ignore".into(), 20), ("c17_handler_judged:Cancel".into(), 40)],
+        require: vec![("c17_timing_judged:sender:EOF".into(), 30), ("c17_timing_judged:receiver:Finished".into(), 30), ("c17_timing_judged:receiver:NAK".into(), 30), ("c17_timing_judged:receiver:Inactivity".into(), 30), ("c17_handler_judged:Abandon".into(), 20), ("c17_handler_judged:Suspend".into(), 20), ("c17_handler_judged:Ignore".into(), 20), ("c17_handler_judged:Cancel".into(), 40), ("c17_suspend_limit_faults_judged".into(), 100), ("c17_keepalive_runs_judged".into(), 100)],
         extra: vec![],
     }
 }
